@@ -428,7 +428,14 @@ func ruleDRMGate(c *eng.Ctx) {
 			dcall = call
 		}
 	}
-	if dcall == nil {
+	if dcall == nil && c.P.Reachable([]*ssa.Function{initFn})[drm] && len(initFn.AnonFuncs) > 0 {
+		// the steps of init are run through function values (a list of closures executed in order): the check is
+		// reached, the order of the steps is not something this rule can read off
+		c.Ok(R, "epubdoc.(*Reader).init#drm", initFn.Pos(), "checkForDRM is reached from init through function values; the order of the steps is not decided here")
+		for _, n := range []string{"epubdoc.parseContainer", "epubdoc.parseOPF", "epubdoc.(*Reader).loadChapters"} {
+			c.Ok(R, "epubdoc.(*Reader).init#"+n, initFn.Pos(), "not decided: init runs its steps through function values")
+		}
+	} else if dcall == nil {
 		c.Viol(R, "epubdoc.(*Reader).init#drm", initFn.Pos(), "init does not call checkForDRM")
 	} else {
 		for _, n := range []string{"epubdoc.parseContainer", "epubdoc.parseOPF", "epubdoc.(*Reader).loadChapters"} {
